@@ -26,8 +26,11 @@ Definition w_uninit : list N := bytes_of_string "pack:2 core:2 pu:2(indexes=pu:c
 Definition w_e0 : list N := [112; 117; 224; 58; 50].       (* "pu\xe0:2" *)
 Definition w_div : list N := bytes_of_string "pack:65536 die:65536 core:65536 l2:65536 pu:2(indexes=l2:pack)".
 
-Lemma memmove_refuted : nul_terminated (desc w_memmove) /\ parse Cur (desc w_memmove) = Fault FLevel.
-Proof. split; [apply desc_nul_terminated; vm_compute; reflexivity | vm_compute; reflexivity]. Qed.
+Ltac all_variants v := destruct v as [a b c d]; cbn [fix_memmove fix_loops fix_arity fix_tm]; intros ->;
+  split; [apply desc_nul_terminated; vm_compute; reflexivity|]; destruct_bools; vm_compute; reflexivity
+with destruct_bools := repeat match goal with x : bool |- _ => destruct x end.
+Lemma memmove_refuted v : fix_memmove v = false -> nul_terminated (desc w_memmove) /\ parse v (desc w_memmove) = Fault FLevel.
+Proof. all_variants v. Qed.
 Definition memmove_class_b v s : bool :=
   match front v s with
   | Ret (st, d0) =>
@@ -49,20 +52,581 @@ Proof.
   unfold memmove_class_b. intros [st [d0 [lv [c [tn [tg [E1 [E2 [E3 E4]]]]]]]]].
   rewrite E1, E2, E3. subst c. now rewrite N.eqb_refl.
 Qed.
-Lemma memmove_witness_in_class : memmove_class Cur (desc w_memmove).
-Proof. apply memmove_class_b_sound. vm_compute. reflexivity. Qed.
+Lemma memmove_witness_in_class v : memmove_class v (desc w_memmove).
+Proof. apply memmove_class_b_sound. destruct v as [a b c d]. destruct a, b, c, d; vm_compute; reflexivity. Qed.
 Lemma memmove_fixed_ok : exists sy, parse Fixed (desc w_memmove) = Ret sy /\ lenl (sy_levels sy) = 128.
 Proof. eexists. split; vm_compute; reflexivity. Qed.
-Lemma below_boundary_ok : exists sy, parse Cur (desc w_125) = Ret sy /\ lenl (sy_levels sy) = 127.
-Proof. eexists. split; vm_compute; reflexivity. Qed.
-Lemma loops_refuted : nul_terminated (desc w_loops) /\ parse Cur (desc w_loops) = Fault FLoops.
-Proof. split; [apply desc_nul_terminated; vm_compute; reflexivity | vm_compute; reflexivity]. Qed.
-Lemma uninit_refuted : nul_terminated (desc w_uninit) /\ parse Cur (desc w_uninit) = Fault FUninit.
-Proof. split; [apply desc_nul_terminated; vm_compute; reflexivity | vm_compute; reflexivity]. Qed.
-Lemma type_match_refuted : nul_terminated (desc w_e0) /\ parse Cur (desc w_e0) = Fault FLit.
-Proof. split; [apply desc_nul_terminated; vm_compute; reflexivity | vm_compute; reflexivity]. Qed.
-Lemma div_refuted : nul_terminated (desc w_div) /\ parse Cur (desc w_div) = Fault FDiv.
-Proof. split; [apply desc_nul_terminated; vm_compute; reflexivity | vm_compute; reflexivity]. Qed.
+Lemma below_boundary_ok v : exists sy, parse v (desc w_125) = Ret sy /\ lenl (sy_levels sy) = 127.
+Proof. destruct v as [a b c d]. destruct a, b, c, d; eexists; split; vm_compute; reflexivity. Qed.
+Lemma loops_refuted v : fix_loops v = false -> nul_terminated (desc w_loops) /\ parse v (desc w_loops) = Fault FLoops.
+Proof. all_variants v. Qed.
+Lemma uninit_refuted v : fix_arity v = false -> nul_terminated (desc w_uninit) /\ parse v (desc w_uninit) = Fault FUninit.
+Proof. all_variants v. Qed.
+Lemma type_match_refuted v : fix_tm v = false -> nul_terminated (desc w_e0) /\ parse v (desc w_e0) = Fault FLit.
+Proof. all_variants v. Qed.
+Lemma div_refuted v : nul_terminated (desc w_div) /\ parse v (desc w_div) = Fault FDiv.
+Proof. split; [apply desc_nul_terminated; vm_compute; reflexivity|]. destruct v as [a b c d]. destruct a, b, c, d; vm_compute; reflexivity. Qed.
 Lemma fixed_rejects_or_accepts_witnesses :
   parse Fixed (desc w_loops) <> Fault FLoops /\ parse Fixed (desc w_uninit) <> Fault FUninit /\ parse Fixed (desc w_e0) <> Fault FLit.
 Proof. repeat split; vm_compute; discriminate. Qed.
+
+(* ================================================================== *)
+(* Safety of the parsing loop, for every NUL-terminated description     *)
+(* ================================================================== *)
+From Coq Require Import ZifyBool ZifyN ZifyNat.
+
+(* [spec Q r]: r is a value satisfying Q, or a rejection, or the only fault the
+   string-level code can produce: running past a type literal ([FLit]) *)
+Definition spec0 {A} (P : bool) (Q : A -> Prop) (r : out A) : Prop :=
+  match r with Ret a => Q a | Rej => True | Fault f => f = FLit /\ P = false end.
+(* P: hwloc__type_match cannot run past its literal: the fixed test, or no byte 0xE0 in the description *)
+Definition tm_ok (v : variant) (s : list N) : bool := fix_tm v || forallb (fun b => negb (b =? 224) && (b <? 256)) s.
+
+Lemma spec_bind {A B} P (Q : A -> Prop) (R : B -> Prop) (r : out A) (k : A -> out B) :
+  spec0 P Q r -> (forall a, Q a -> spec0 P R (k a)) -> spec0 P R (obind r k).
+Proof. destruct r as [a| |f]; simpl; auto. Qed.
+Lemma spec_weaken {A} P (Q Q' : A -> Prop) r : spec0 P Q r -> (forall a, Q a -> Q' a) -> spec0 P Q' r.
+Proof. destruct r; simpl; auto. Qed.
+Lemma spec_lift {A} P (Q : A -> Prop) (r : res A) : (exists a, r = Ok a /\ Q a) -> spec0 P Q (lift r).
+Proof. intros [a [-> H]]. exact H. Qed.
+
+Lemma skipn_rd (s : list N) i c : rd s i = Some c -> skipn (N.to_nat i) s = c :: skipn (N.to_nat (N.succ i)) s.
+Proof.
+  unfold rd. rewrite N2Nat.inj_succ. generalize (N.to_nat i) as k.
+  induction s as [|b t IH]; intros k H; destruct k; simpl in *; try discriminate.
+  - now injection H as ->.
+  - now apply IH.
+Qed.
+
+Section WithString.
+Variables (v : variant) (s : list N) (n : N).
+Hypothesis Hs : cstring s n.
+Notation spec := (spec0 (tm_ok v s)).
+
+Lemma rd_in i : i <= n -> exists c, rd s i = Some c /\ (c = 0 <-> i = n).
+Proof.
+  intros Hi. destruct Hs as [H0 Hk]. destruct (N.eq_dec i n) as [->|Hne].
+  - exists 0. tauto.
+  - destruct (Hk i) as [c [Hc Nz]]; [lia|]. exists c. tauto.
+Qed.
+Lemma rdo_spec i : i <= n -> spec (fun c => rd s i = Some c /\ (c = 0 <-> i = n)) (rdo s i).
+Proof. intros Hi. destruct (rd_in i Hi) as [c [Hc Hz]]. unfold rdo, rdr. rewrite Hc. simpl. auto. Qed.
+
+(* ---- hwloc__type_match ---- *)
+Definition goodlit (lit : list N) : Prop := exists p, lit = p ++ [0] /\ Forall (fun b => b <> 0 /\ b < 128) p.
+Definition goodstr (lit : string) : bool := forallb (fun b => negb (b =? 0) && (b <? 128)) (bytes_of_string lit).
+Lemma goodstr_lit lit : goodstr lit = true -> goodlit (cstr lit).
+Proof.
+  unfold goodstr, goodlit, cstr. intros H. exists (bytes_of_string lit). split; [reflexivity|].
+  rewrite forallb_forall in H. apply Forall_forall. intros b Hb. specialize (H b Hb). lia.
+Qed.
+Lemma goodlit_step c tc lit' : tm_ok v s = true -> In c s -> c <> 0 -> goodlit (tc :: lit') ->
+  ((fix_tm v && (tc =? 0)) || (negb (sc c =? sc tc)%Z && negb (sc c =? sc tc - 32)%Z)) = false -> goodlit lit'.
+Proof.
+  intros T Hin Hc [p [E F]] Hcond. destruct p as [|x p']; simpl in E; injection E as -> ->.
+  - exfalso. unfold tm_ok in T. destruct (fix_tm v); simpl in Hcond; [discriminate|]. simpl in T.
+    rewrite forallb_forall in T. specialize (T c Hin). unfold sc in Hcond. change (0 <? 128) with true in Hcond. cbv iota in Hcond.
+    destruct (c <? 128) eqn:E; lia.
+  - exists p'. split; [reflexivity|]. now inversion F.
+Qed.
+Lemma tm_l_spec mm : forall d lit i k, (tm_ok v s = true -> goodlit lit) -> N.to_nat (n - i) = d -> i <= n ->
+  spec (fun r => match r with Some e => i <= e <= n | None => True end)
+       (tm_l v (skipn (N.to_nat i) s) i lit k mm).
+Proof.
+  induction d as [|d IH]; intros lit i k Hg Hd Hi;
+    destruct (rd_in i Hi) as [c [Hc Hz]]; rewrite (skipn_rd s i c Hc); cbn [tm_l].
+  - assert (i = n) by lia. assert (c = 0) by tauto. subst c. cbn. destruct (k <? mm); simpl; auto. lia.
+  - destruct (N.eqb_spec c 0) as [->|Hc0].
+    + destruct (k <? mm); simpl; auto. lia.
+    + destruct lit as [|tc lit'].
+      { simpl. split; [reflexivity|]. destruct (tm_ok v s); [|reflexivity].
+        destruct (Hg eq_refl) as [p [E _]]. destruct p; discriminate. }
+      assert (i <> n) by tauto.
+      destruct (_ || _) eqn:Hcond.
+      * destruct (isalpha c || (c =? 45)); simpl; auto. destruct (k <? mm); simpl; auto. lia.
+      * eapply spec_weaken; [apply IH; [|lia|lia]|].
+        -- intros T. eapply goodlit_step; eauto. unfold rd in Hc. eapply nth_error_In; eauto.
+        -- intros [e|]; simpl; auto. lia.
+Qed.
+Lemma type_match_spec i lit mm : goodstr lit = true -> i <= n ->
+  spec (fun r => match r with Some e => i <= e <= n | None => True end) (type_match v s i lit mm).
+Proof. intros Hg Hi. unfold type_match. eapply tm_l_spec; eauto. intros _. now apply goodstr_lit. Qed.
+Lemma tmb_spec i lit mm : goodstr lit = true -> i <= n -> spec (fun _ => True) (tmb v s i lit mm).
+Proof.
+  intros Hg Hi. unfold tmb. eapply spec_bind; [apply type_match_spec; assumption|]. intros a _. exact I.
+Qed.
+Lemma any_match_spec i alts : forallb (fun a => goodstr (fst a)) alts = true -> i <= n -> spec (fun _ => True) (any_match v s i alts).
+Proof.
+  intros Hg Hi. induction alts as [|[l m] r IH]; cbn [any_match]; [exact I|].
+  cbn [forallb fst] in Hg. apply andb_true_iff in Hg. destruct Hg as [G1 G2].
+  eapply spec_bind; [apply tmb_spec; assumption|]. intros [|] _; [exact I|exact (IH G2)].
+Qed.
+Lemma first_simple_spec i tbl : forallb (fun a => goodstr (fst (fst a))) tbl = true -> i <= n -> spec (fun _ => True) (first_simple v s i tbl).
+Proof.
+  intros Hg Hi. induction tbl as [|[[l m] t] r IH]; cbn [first_simple]; [exact I|].
+  cbn [forallb fst] in Hg. apply andb_true_iff in Hg. destruct Hg as [G1 G2].
+  eapply spec_bind; [apply tmb_spec; assumption|]. intros [|] _; [exact I|exact (IH G2)].
+Qed.
+
+(* ---- libc pieces ---- *)
+Lemma strchr_spec i c : i <= n -> c <> 0 ->
+  spec (fun r => match r with Some j => i <= j < n /\ rd s j = Some c | None => True end) (lift (strchr s i c)).
+Proof.
+  intros Hi Hc. destruct (strchr_ok s n i c Hs Hi) as [r [E H]]. rewrite E. simpl.
+  destruct r as [j|]; [|exact I]. destruct H as [Hr [Hj _]]. split; [|exact Hj].
+  destruct (N.eq_dec j n) as [->|]; [|lia]. destruct Hs as [H0 _]. congruence.
+Qed.
+Lemma strchr0_spec i c : i <= n -> spec (fun _ => True) (lift (strchr s i c)).
+Proof. intros Hi. destruct (strchr_ok s n i c Hs Hi) as [r [E _]]. rewrite E. exact I. Qed.
+Lemma strtoul_spec i b : i <= n -> spec (fun r => i <= snd r <= n) (lift (strtoul s i b)).
+Proof. intros Hi. destruct (strtoul_ok s n i b Hs Hi) as [v0 [e [E [H _]]]]. rewrite E. exact H. Qed.
+Lemma strtol_spec i b : i <= n -> spec (fun r => i <= snd r <= n) (lift (strtol s i b)).
+Proof. intros Hi. destruct (strtol_ok s n i b Hs Hi) as [v0 [e [E H]]]. rewrite E. exact H. Qed.
+Lemma scan_spec p i : i <= n -> p 0 = false -> spec (fun j => i <= j <= n) (lift (scan_while p s i)).
+Proof. intros Hi Hp. destruct (scan_while_ok p s n i Hs Hi Hp) as [j [E H]]. rewrite E. exact H. Qed.
+Lemma strcspn_spec i set : i <= n -> spec (fun l => i + l <= n) (lift (strcspn s i set)).
+Proof.
+  intros Hi. unfold strcspn.
+  destruct (scan_while_ok (fun b => negb (b =? 0) && negb (mem_byte b set)) s n i Hs Hi eq_refl) as [j [E H]].
+  rewrite E. simpl. lia.
+Qed.
+Lemma strspn_spec i set : i <= n -> spec (fun l => i + l <= n) (lift (strspn s i set)).
+Proof.
+  intros Hi. unfold strspn.
+  destruct (scan_while_ok (fun b => negb (b =? 0) && mem_byte b set) s n i Hs Hi eq_refl) as [j [E H]].
+  rewrite E. simpl. lia.
+Qed.
+
+(* a successful comparison of k literal bytes (none of them NUL) leaves room for them *)
+Lemma strncmp_room fold (Hf : fold_ok fold) a na : cstring a na -> forall k i j,
+  i + N.of_nat k <= na -> j <= n ->
+  match strncmp_f fold k a i s j with
+  | Ok None => j + N.of_nat k <= n
+  | Ok (Some _) => True
+  | Oob => False
+  end.
+Proof.
+  intros Ha. induction k as [|k IH]; intros i j Hik Hj; cbn [strncmp_f]; [lia|].
+  destruct Ha as [Ha0 Hak]. destruct (Hak i) as [x [Hx Nx]]; [lia|].
+  destruct (rd_in j Hj) as [y [Hy Zy]]. unfold rdr. rewrite Hx, Hy. cbn [bind].
+  destruct (fold x =? fold y) eqn:E; cbn [negb]; [|exact I].
+  destruct (N.eqb_spec x 0) as [->|_]; [congruence|].
+  apply N.eqb_eq in E. assert (y <> 0). { intros ->. apply Nx, Hf, E. }
+  assert (j <> n) by tauto.
+  specialize (IH (N.succ i) (N.succ j)).
+  destruct (strncmp_f fold k a (N.succ i) s (N.succ j)) as [[p|]|]; try (apply IH; lia).
+  assert (N.succ j + N.of_nat k <= n) by (apply IH; lia). lia.
+Qed.
+Lemma lit_cstring lit : nonul (bytes_of_string lit) = true -> cstring (cstr lit) (len (bytes_of_string lit)).
+Proof. intros H. unfold cstr. apply cstring_app. now apply nonul_no_nul. Qed.
+Lemma prefix_gen fold (Hf : fold_ok fold) lit i : nonul (bytes_of_string lit) = true -> i <= n ->
+  spec (fun b => b = true -> i + len (bytes_of_string lit) <= n)
+       (lift (cmp_eq (strncmp_f fold (N.to_nat (len (bytes_of_string lit))) (cstr lit) 0 s i))).
+Proof.
+  intros Hl Hi. pose proof (strncmp_room fold Hf (cstr lit) _ (lit_cstring lit Hl) (N.to_nat (len (bytes_of_string lit))) 0 i) as H.
+  rewrite N2Nat.id in H. specialize (H ltac:(lia) Hi). unfold cmp_eq.
+  destruct (strncmp_f _ _ _ _ _ _) as [[p|]|]; simpl; [discriminate|auto|contradiction].
+Qed.
+Lemma has_prefix_spec' lit i : nonul (bytes_of_string lit) = true -> i <= n ->
+  spec (fun b => b = true -> i + len (bytes_of_string lit) <= n) (lift (has_prefix lit s i)).
+Proof. intros. apply (prefix_gen (fun x => x) fold_ok_id); assumption. Qed.
+Lemma has_prefix_nocase_spec lit i : nonul (bytes_of_string lit) = true -> i <= n ->
+  spec (fun b => b = true -> i + len (bytes_of_string lit) <= n) (lift (has_prefix_nocase lit s i)).
+Proof. intros. apply (prefix_gen tolower fold_ok_tolower); assumption. Qed.
+
+(* ---- osdev[...] ---- *)
+Lemma osdev_types_spec : forall fuel i, i <= n -> (N.to_nat (n - i) < fuel)%nat -> spec (fun _ => True) (osdev_types_f v fuel s i).
+Proof.
+  induction fuel as [|f IH]; intros i Hi Hf; [lia|]. cbn [osdev_types_f].
+  eapply spec_bind; [apply any_match_spec; [reflexivity|exact Hi]|]. intros _ _.
+  eapply spec_bind; [apply (strchr_spec i 44 Hi); discriminate|]. intros [j|] Hj.
+  - apply IH; lia.
+  - eapply spec_bind; [apply strchr0_spec; exact Hi|]. intros; exact I.
+Qed.
+Lemma len_ge : n < len s.
+Proof. destruct Hs as [H0 _]. now apply rd_some_lt in H0. Qed.
+
+(* ---- hwloc_type_sscanf ---- *)
+Lemma cache_suffix_spec i t d ct : i <= n -> spec (fun _ => True) (cache_suffix v s i t d ct).
+Proof. intros Hi. unfold cache_suffix. eapply spec_bind; [apply tmb_spec; [reflexivity|exact Hi]|]. intros; exact I. Qed.
+
+Lemma type_sscanf_spec i : i <= n -> spec (fun _ => True) (type_sscanf v s i).
+Proof.
+  intros Hi. unfold type_sscanf. pose proof len_ge as Hl. unfold len in Hl.
+  eapply spec_bind; [apply has_prefix_nocase_spec; [reflexivity|exact Hi]|]. intros [|] H1.
+  { specialize (H1 eq_refl). change (len (bytes_of_string "osdev[")) with 6 in H1.
+    eapply spec_bind; [apply osdev_types_spec; lia|]. intros; exact I. }
+  eapply spec_bind; [apply has_prefix_nocase_spec; [reflexivity|exact Hi]|]. intros [|] H2.
+  { specialize (H2 eq_refl). change (len (bytes_of_string "os[")) with 3 in H2.
+    eapply spec_bind; [apply osdev_types_spec; lia|]. intros; exact I. }
+  eapply spec_bind; [apply tmb_spec; [reflexivity|exact Hi]|]. intros [|] _; [exact I|].
+  eapply spec_bind; [apply any_match_spec; [reflexivity|exact Hi]|]. intros [|] _; [exact I|].
+  eapply spec_bind; [apply first_simple_spec; [reflexivity|exact Hi]|]. intros [t|] _; [exact I|].
+  eapply spec_bind; [apply rdo_spec; exact Hi|]. intros c0 [Hc0 Z0].
+  eapply spec_bind with (Q := fun b : bool => b = true -> i + 1 <= n).
+  { destruct ((c0 =? 108) || (c0 =? 76)) eqn:E; [|simpl; discriminate].
+    assert (c0 <> 0) by (intros ->; discriminate). assert (i <> n) by tauto.
+    eapply spec_bind; [apply rdo_spec; lia|]. intros c1 _. simpl. lia. }
+  intros [|] Hisl.
+  - specialize (Hisl eq_refl).
+    eapply spec_bind; [apply strtol_spec; exact Hisl|]. intros r Hr. cbv beta in Hr. cbv zeta.
+    eapply spec_bind; [apply rdo_spec; lia|]. intros ce [Hce Zce].
+    assert (Hnz : forall x, ce =? x = true -> x <> 0 -> snd r + 1 <= n).
+    { intros x Hx Hx0. apply N.eqb_eq in Hx. subst x. assert (snd r <> n) by tauto. lia. }
+    destruct (ce =? 105) eqn:E1; [|destruct (ce =? 73) eqn:E2]; cbn [orb].
+    + destruct (_ && _); [apply cache_suffix_spec; apply (Hnz 105); [exact E1|discriminate]|exact I].
+    + destruct (_ && _); [apply cache_suffix_spec; apply (Hnz 73); [exact E2|discriminate]|exact I].
+    + destruct (_ && _); [|exact I].
+      destruct (ce =? 100) eqn:E3; [|destruct (ce =? 68) eqn:E4]; cbn [orb].
+      * apply cache_suffix_spec; apply (Hnz 100); [exact E3|discriminate].
+      * apply cache_suffix_spec; apply (Hnz 68); [exact E4|discriminate].
+      * destruct (ce =? 117) eqn:E5; [|destruct (ce =? 85) eqn:E6]; cbn [orb].
+        -- apply cache_suffix_spec; apply (Hnz 117); [exact E5|discriminate].
+        -- apply cache_suffix_spec; apply (Hnz 85); [exact E6|discriminate].
+        -- apply cache_suffix_spec; lia.
+  - eapply spec_bind; [apply type_match_spec; [reflexivity|exact Hi]|]. intros [e|] He; [|exact I].
+    eapply spec_bind; [apply rdo_spec; lia|]. intros ce _.
+    destruct (isdigit ce); [|exact I].
+    eapply spec_bind; [apply strtol_spec; lia|]. intros; exact I.
+Qed.
+
+(* ---- attributes ---- *)
+Lemma apply_unit_spec e size us : e <= n ->
+  Forall (fun u => nonul (bytes_of_string (fst u)) = true) us ->
+  spec (fun r => e <= snd r <= n) (apply_unit s e size us).
+Proof.
+  intros He. induction us as [|[u m] r IH]; intros Hu; cbn [apply_unit]; [simpl; lia|].
+  inversion Hu as [|x l Hu1 Hu2]; subst.
+  eapply spec_bind; [apply has_prefix_nocase_spec; [exact Hu1|exact He]|].
+  intros [|] Hp; [specialize (Hp eq_refl); simpl; lia | apply IH; exact Hu2].
+Qed.
+Lemma parse_memory_attr_spec i : i <= n -> spec (fun r => i <= snd r <= n) (parse_memory_attr s i).
+Proof.
+  intros Hi. unfold parse_memory_attr.
+  eapply spec_bind; [apply (strtoul_spec i 0 Hi)|]. intros r Hr. cbv beta in Hr.
+  eapply spec_weaken; [apply apply_unit_spec; [lia|repeat constructor]|]. intros a Ha. cbv beta in Ha. lia.
+Qed.
+
+Lemma parse_attrs_f_spec ty : forall fuel a mem msc istr, a <= n -> (N.to_nat (n - a) < fuel)%nat ->
+  spec (fun _ => True) (parse_attrs_f fuel s ty a mem msc istr).
+Proof.
+  induction fuel as [|f IH]; intros a mem msc istr Ha Hf; [lia|]. cbn [parse_attrs_f].
+  eapply spec_bind; [apply rdo_spec; exact Ha|]. intros c _.
+  destruct (c =? 41); [exact I|].
+  eapply spec_bind with (Q := fun st : N * N * option (N * N) * N => a <= snd st <= n).
+  { eapply spec_bind with (Q := fun b : bool => b = true -> a + 5 <= n).
+    { destruct (is_cache ty); [apply (has_prefix_spec' "size=" a eq_refl Ha)|simpl; discriminate]. }
+    intros [|] H1.
+    { specialize (H1 eq_refl). eapply spec_bind; [apply parse_memory_attr_spec; exact H1|].
+      intros r Hr. cbv beta in Hr. unfold spec0. cbn [snd]. lia. }
+    eapply spec_bind with (Q := fun b : bool => b = true -> a + 7 <= n).
+    { destruct (is_cache ty); [simpl; discriminate|apply (has_prefix_spec' "memory=" a eq_refl Ha)]. }
+    intros [|] H2.
+    { specialize (H2 eq_refl). eapply spec_bind; [apply parse_memory_attr_spec; exact H2|].
+      intros r Hr. cbv beta in Hr. unfold spec0. cbn [snd]. lia. }
+    eapply spec_bind; [apply (has_prefix_spec' "memorysidecachesize=" a eq_refl Ha)|]. intros [|] H3.
+    { specialize (H3 eq_refl). change (len (bytes_of_string "memorysidecachesize=")) with 20 in H3.
+      eapply spec_bind; [apply parse_memory_attr_spec; exact H3|].
+      intros r Hr. cbv beta in Hr. unfold spec0. cbn [snd]. lia. }
+    eapply spec_bind; [apply (has_prefix_spec' "indexes=" a eq_refl Ha)|]. intros [|] H4.
+    { specialize (H4 eq_refl). change (len (bytes_of_string "indexes=")) with 8 in H4.
+      eapply spec_bind; [apply strcspn_spec; exact H4|]. intros l Hl. cbv beta in Hl. unfold spec0. cbn [snd]. lia. }
+    eapply spec_bind; [apply strcspn_spec; exact Ha|]. intros l Hl. cbv beta in Hl. unfold spec0. cbn [snd]. lia. }
+  intros [[[mem' msc'] istr'] a'] Ha'. cbn [snd] in Ha'.
+  eapply spec_bind; [apply rdo_spec; lia|]. intros c2 [Hc2 Z2].
+  destruct (N.eqb_spec c2 32) as [->|_].
+  - assert (a' <> n) by (intros E; apply Z2 in E; discriminate). apply IH; lia.
+  - destruct (c2 =? 41); exact I.
+Qed.
+
+Lemma parse_attrs_spec i ty msc0 : i <= n -> spec (fun pa => i <= pa_next pa <= n) (parse_attrs s i ty msc0).
+Proof.
+  intros Hi. unfold parse_attrs. pose proof len_ge as Hl. unfold len in Hl.
+  eapply spec_bind; [apply (strchr_spec i 41 Hi); discriminate|]. intros [p|] Hp; [|exact I].
+  eapply spec_bind; [apply parse_attrs_f_spec; [exact Hi|lia]|]. intros [[m ms] is] _. simpl. lia.
+Qed.
+End WithString.
+
+(* ---- the level array ---- *)
+Lemma upd_nth_some {A} (l : list A) f : forall k, (k < length l)%nat ->
+  exists l', upd_nth l k f = Some l' /\ length l' = length l.
+Proof.
+  induction l as [|x t IH]; intros [|k] H; simpl in *; try lia.
+  - eexists; split; reflexivity.
+  - destruct (IH k) as [l' [E L]]; [lia|]. rewrite E. simpl. eexists; split; [reflexivity|simpl; lia].
+Qed.
+Lemma lv_upd_spec P a i f : i < lenl a -> spec0 P (fun a' => lenl a' = lenl a) (lv_upd a i f).
+Proof.
+  unfold lenl, lv_upd. intros H. destruct (upd_nth_some a f (N.to_nat i)) as [l' [E L]]; [lia|].
+  rewrite E. simpl. lia.
+Qed.
+Lemma lv_get_spec P a i : i < lenl a -> spec0 P (fun _ => True) (lv_get a i).
+Proof.
+  unfold lenl, lv_get. intros H. destruct (nth_error a (N.to_nat i)) eqn:E; [exact I|].
+  apply nth_error_None in E. lia.
+Qed.
+
+Definition Inv (st : pstate) : Prop :=
+  lenl (st_lv st) = MAXD /\ 1 <= st_count st /\ st_count st + 1 <= MAXD.
+
+Section Loop.
+Variables (v : variant) (s : list N) (n : N).
+Hypothesis Hs : cstring s n.
+Notation spec := (spec0 (tm_ok v s)).
+
+Lemma step_spec st pos : Inv st -> pos <= n ->
+  spec (fun r => match r with
+                 | SCont st' pos' => Inv st' /\ pos < pos' <= n
+                 | SBreak st' => Inv st'
+                 end) (step v s st pos).
+Proof.
+  intros [HL [Hc1 Hc2]] Hpos. unfold step. set (count := st_count st) in *.
+  eapply spec_bind; [apply lv_upd_spec; lia|]. intros lv1 L1. cbv beta in L1.
+  eapply spec_bind; [apply (scan_spec v s n Hs); [exact Hpos|reflexivity]|]. intros pos1 Hp1. cbv beta in Hp1.
+  eapply spec_bind; [apply (rdo_spec v s n Hs); lia|]. intros c [Hc Zc].
+  destruct (N.eqb_spec c 0) as [->|Hc0].
+  { unfold spec0, Inv. cbn. repeat split; lia. }
+  assert (Hlt : pos1 < n). { assert (pos1 <> n) by tauto. lia. }
+  destruct (c =? 91).
+  - (* attached *)
+    eapply spec_bind; [apply (type_sscanf_spec v s n Hs); lia|]. intros [[[ty d] ct]|] _; [|exact I].
+    destruct (negb (ty =? HWLOC_OBJ_NUMANODE)); [exact I|].
+    eapply spec_bind; [apply lv_get_spec; lia|]. intros par _.
+    eapply spec_bind; [apply lv_upd_spec; lia|]. intros lv2 L2. cbv beta in L2.
+    eapply spec_bind; [apply (strchr_spec v s n Hs (pos1 + 1) 93); [lia|discriminate]|]. intros [p|] Hp; [|exact I].
+    eapply spec_bind; [apply (strchr_spec v s n Hs (pos1 + 1) 40); [lia|discriminate]|]. intros at_ Hat.
+    eapply spec_bind with (Q := fun r : list level * option (N * N) => lenl (fst r) = MAXD).
+    { destruct at_ as [a|]; [|unfold spec0; cbn; lia].
+      destruct (a <? p); [|unfold spec0; cbn; lia].
+      eapply spec_bind; [apply (parse_attrs_spec v s n Hs); lia|]. intros pa _.
+      eapply spec_bind; [apply lv_upd_spec; lia|]. intros lv3 L3. cbv beta in L3. unfold spec0. cbn. lia. }
+    intros r Hr. cbv beta in Hr. unfold spec0, Inv. cbn. repeat split; try lia.
+  - (* normal level *)
+    eapply spec_bind; [apply lv_upd_spec; lia|]. intros lv2 L2. cbv beta in L2.
+    eapply spec_bind with (Q := fun tp : N * N * N * N => pos1 <= snd tp <= n).
+    { destruct (negb (isdigit c)); [|unfold spec0; cbn; lia].
+      eapply spec_bind; [apply (type_sscanf_spec v s n Hs); lia|]. intros ts _.
+      eapply spec_bind with (Q := fun _ : N * N * N => True).
+      { destruct ts as [x|]; [exact I|].
+        eapply spec_bind; [apply (has_prefix_spec' v s n Hs "Tile" pos1 eq_refl); lia|]. intros t1 _.
+        eapply spec_bind with (Q := fun _ : bool => True).
+        { destruct t1; [exact I|].
+          eapply spec_weaken; [apply (has_prefix_spec' v s n Hs "Module" pos1 eq_refl); lia|]. intros; exact I. }
+        intros [|] _; exact I. }
+      intros [[ty d] ct] _.
+      destruct (disallowed_level ty); [exact I|].
+      eapply spec_bind; [apply (strchr_spec v s n Hs pos1 58); [lia|discriminate]|]. intros [p|] Hp; [|exact I].
+      unfold spec0. cbn. lia. }
+    intros [[[ty d] ct] pos2] Hp2. cbn [snd] in Hp2.
+    destruct (if is_cache ty then (d, ct) else if ty =? HWLOC_OBJ_GROUP then (d, M1) else (M1, M1)) as [d' ct'].
+    eapply spec_bind; [apply lv_upd_spec; lia|]. intros lv3 L3. cbv beta in L3.
+    eapply spec_bind; [apply (strtoul_spec v s n Hs pos2 0); lia|]. intros r Hr. cbv beta in Hr. cbv zeta.
+    destruct (N.eqb_spec (snd r) pos2) as [_|Hne]; [exact I|].
+    destruct (fst r =? 0); [exact I|].
+    eapply spec_bind; [apply lv_upd_spec; lia|]. intros lv4 L4. cbv beta in L4.
+    eapply spec_bind; [apply (rdo_spec v s n Hs); lia|]. intros cn [Hcn Zcn].
+    eapply spec_bind with (Q := fun r2 : list level * N => lenl (fst r2) = MAXD /\ snd r <= snd r2 <= n).
+    { destruct (N.eqb_spec cn 40) as [->|_]; [|unfold spec0; cbn; lia].
+      assert (snd r <> n) by (intros E; apply Zcn in E; discriminate).
+      eapply spec_bind; [apply (parse_attrs_spec v s n Hs); lia|]. intros pa Hpa. cbv beta in Hpa.
+      eapply spec_bind; [apply lv_upd_spec; lia|]. intros lv5 L5. cbv beta in L5. unfold spec0. cbn. lia. }
+    intros [lv5 np] [L5 Hnp]. cbn [fst snd] in L5, Hnp.
+    destruct (N.leb_spec MAXD (count + 1)); [exact I|].
+    destruct (Tables.UINT_MAX <? fst r); [exact I|].
+    eapply spec_bind; [apply lv_upd_spec; lia|]. intros lv6 L6. cbv beta in L6.
+    unfold spec0, Inv. cbn. repeat split; lia.
+Qed.
+
+Lemma main_loop_spec : forall fuel st pos, Inv st -> pos <= n -> (N.to_nat (n - pos) < fuel)%nat ->
+  spec Inv (main_loop v fuel s st pos).
+Proof.
+  induction fuel as [|f IH]; intros st pos Hinv Hpos Hf; [lia|]. cbn [main_loop].
+  eapply spec_bind; [apply (rdo_spec v s n Hs); exact Hpos|]. intros c _.
+  destruct (c =? 0); [exact Hinv|].
+  eapply spec_bind; [apply step_spec; assumption|]. intros [st' pos'|st'] H.
+  - destruct H as [H1 H2]. apply IH; [exact H1|lia|lia].
+  - exact H.
+Qed.
+
+Lemma MAXD_ge2 : 2 <= MAXD. Proof. vm_compute. discriminate. Qed.
+Lemma init_levels_len : lenl init_levels = MAXD.
+Proof. vm_compute. reflexivity. Qed.
+
+Lemma front_spec : spec (fun r => Inv (fst r) /\ snd r <= n) (front v s).
+Proof.
+  unfold front. pose proof (len_ge s n Hs) as Hl. unfold len in Hl. pose proof MAXD_ge2 as HM.
+  eapply spec_bind; [apply (rdo_spec v s n Hs); lia|]. intros c0 [Hc0 Z0].
+  eapply spec_bind with (Q := fun r : list level * N => lenl (fst r) = MAXD /\ snd r <= n).
+  { destruct (N.eqb_spec c0 40) as [->|_]; [|unfold spec0; cbn [fst snd]; split; [apply init_levels_len|lia]].
+    assert (0 <> n) by (intros E; apply Z0 in E; discriminate).
+    eapply spec_bind; [apply (parse_attrs_spec v s n Hs); lia|]. intros pa Hpa. cbv beta in Hpa.
+    eapply spec_bind; [apply lv_upd_spec; rewrite init_levels_len; lia|]. intros lv L. cbv beta in L.
+    unfold spec0. cbn [fst snd]. rewrite L. split; [apply init_levels_len|lia]. }
+  intros [lv d0] [L Hd]. cbn [fst snd] in L, Hd.
+  eapply spec_bind; [apply main_loop_spec; [unfold Inv; cbn; lia|exact Hd|lia]|].
+  intros st Hst. unfold spec0. cbn [fst snd]. auto.
+Qed.
+End Loop.
+
+(* No byte outside the description, no element outside level[], no fuel exhaustion
+   in the whole parsing loop, for every NUL-terminated description and every variant;
+   the only possible fault is the literal overrun of hwloc__type_match, and only when
+   the description holds a byte 0xE0 and the test is not fixed *)
+Theorem front_safe v s : nul_terminated s ->
+  match front v s with
+  | Ret (st, d0) => lenl (st_lv st) = MAXD /\ 1 <= st_count st /\ st_count st + 1 <= MAXD
+  | Rej => True
+  | Fault f => f = FLit /\ tm_ok v s = false
+  end.
+Proof.
+  intros [n Hs]. pose proof (front_spec v s n Hs) as H. unfold spec0 in H.
+  destruct (front v s) as [[st d0]| |f]; auto. destruct H as [H _]. exact H.
+Qed.
+
+(* ================================================================== *)
+(* After the loop: checks, default types, the implicit NUMA level       *)
+(* ================================================================== *)
+Definition upto_insert v s : out (list level * N) :=
+  do* fr := front v s in
+  do* m := middle (fst fr) in
+  let '(lv, count, tcn, tcg) := m in
+  if needs_numa tcn (st_nnr (fst fr)) then numa_insert v lv count else Ret (lv, count).
+
+Lemma parse_decomp v s :
+  parse v s =
+  do* fr := front v s in
+  do* m := middle (fst fr) in
+  let '(lv, count, tcn, tcg) := m in
+  do* r := (if needs_numa tcn (st_nnr (fst fr)) then numa_insert v lv count else Ret (lv, count)) in
+  back v s (fst r) (snd r) tcg (st_nnr (fst fr)) (st_nistr (fst fr)) (snd fr).
+Proof.
+  unfold parse. destruct (front v s) as [[st d0]| |]; reflexivity.
+Qed.
+
+Lemma default_assign_nnr c nnr : default_assign c nnr = default_assign c (if nnr =? 0 then 0 else 1).
+Proof. destruct nnr; reflexivity. Qed.
+
+Definition assign_ok_b (c z : N) : bool :=
+  forallb (fun a : N * (N * N * N) => fst a <? c) (fst (fst (default_assign c z))).
+Lemma assign_ok_all : forallb (fun k => assign_ok_b (N.of_nat k) 0 && assign_ok_b (N.of_nat k) 1) (seq 0 (S MAXnat)) = true.
+Proof. vm_compute. reflexivity. Qed.
+Lemma assign_ok c nnr : c <= MAXD -> Forall (fun a : N * (N * N * N) => fst a < c) (fst (fst (default_assign c nnr))).
+Proof.
+  intros Hc. rewrite default_assign_nnr. pose proof assign_ok_all as H. rewrite forallb_forall in H.
+  specialize (H (N.to_nat c)). rewrite N2Nat.id in H.
+  assert (Hin : In (N.to_nat c) (seq 0 (S MAXnat))) by (apply in_seq; unfold MAXnat; lia).
+  specialize (H Hin). apply andb_true_iff in H. destruct H as [H0 H1].
+  apply Forall_forall. intros a Ha.
+  destruct (nnr =? 0); [unfold assign_ok_b in H0; rewrite forallb_forall in H0; specialize (H0 a Ha)
+                       |unfold assign_ok_b in H1; rewrite forallb_forall in H1; specialize (H1 a Ha)]; lia.
+Qed.
+
+Lemma set_types_spec P : forall asg lv, Forall (fun a : N * (N * N * N) => fst a < lenl lv) asg ->
+  spec0 P (fun lv' => lenl lv' = lenl lv) (set_types lv asg).
+Proof.
+  induction asg as [|[i [[t d] c]] r IH]; intros lv H; cbn [set_types]; [reflexivity|].
+  inversion H as [|x l H1 H2]; subst. cbn [fst] in H1.
+  eapply spec_bind; [apply lv_upd_spec; exact H1|]. intros lv' L. cbv beta in L.
+  eapply spec_weaken; [apply IH; rewrite L; exact H2|]. intros a Ha. cbv beta in Ha. lia.
+Qed.
+
+Lemma middle_spec P st : Inv st ->
+  spec0 P (fun m => let '(lv, count, tcn, tcg) := m in lenl lv = MAXD /\ count = st_count st) (middle st).
+Proof.
+  intros [HL [H1 H2]]. unfold middle.
+  eapply spec_bind; [apply lv_get_spec; lia|]. intros last _.
+  destruct (_ && _); [exact I|].
+  eapply spec_bind; [apply lv_upd_spec; lia|]. intros lv L. cbv beta in L.
+  repeat match goal with |- spec0 _ _ (if ?b then Rej else _) => destruct b; [exact I|] end.
+  match goal with |- spec0 _ _ (if ?b then _ else _) => destruct b end.
+  - destruct (default_assign (st_count st) (st_nnr st)) as [[asg ng] nn] eqn:E.
+    eapply spec_bind; [apply set_types_spec|].
+    + pose proof (assign_ok (st_count st) (st_nnr st) ltac:(lia)) as F. rewrite E in F. cbn [fst] in F.
+      eapply Forall_impl; [|exact F]. intros a Ha. cbv beta in Ha. lia.
+    + intros lv' L'. cbv beta in L'. unfold spec0. split; [lia|reflexivity].
+  - unfold spec0. split; [lia|reflexivity].
+Qed.
+
+Lemma firstn_lenl {A} k (l : list A) : k <= lenl l -> lenl (firstn (N.to_nat k) l) = k.
+Proof. unfold lenl. intros H. rewrite firstn_length. lia. Qed.
+
+Lemma numa_insert_spec P v lv count : lenl lv = MAXD -> 1 <= count -> count + 1 <= MAXD ->
+  (fix_memmove v = true \/ count <> MAXD - 1) ->
+  spec0 P (fun r => lenl (fst r) = MAXD /\ snd r = count + 1) (numa_insert v lv count).
+Proof.
+  intros HL H1 H2 Hfix. pose proof MAXD_ge2 as HM. unfold numa_insert, lv_memmove.
+  set (k := if fix_memmove v then count - 1 else count).
+  assert (Hk : 2 + k <= MAXD). { unfold k. destruct (fix_memmove v); [lia|]. destruct Hfix; [discriminate|lia]. }
+  rewrite HL.
+  destruct (N.ltb_spec MAXD (1 + k)); [lia|]. destruct (N.ltb_spec MAXD (2 + k)); [lia|]. cbn [orb obind].
+  set (lv1 := firstn _ lv ++ _ ++ _).
+  assert (L1 : lenl lv1 = MAXD).
+  { unfold lv1, lenl. rewrite !app_length, !firstn_length, !skipn_length. unfold lenl in HL. lia. }
+  eapply spec_bind; [apply lv_get_spec; lia|]. intros l0 _.
+  eapply spec_bind; [apply lv_upd_spec; lia|]. intros lv2 L2. cbv beta in L2.
+  eapply spec_bind; [apply lv_upd_spec; lia|]. intros lv3 L3. cbv beta in L3.
+  unfold spec0. cbn [fst snd]. split; [lia|reflexivity].
+Qed.
+
+Lemma numa_insert_overflow v lv count : fix_memmove v = false -> lenl lv = MAXD -> count = MAXD - 1 ->
+  numa_insert v lv count = Fault FLevel.
+Proof.
+  intros Hv HL ->. pose proof MAXD_ge2 as HM. unfold numa_insert, lv_memmove. rewrite Hv, HL.
+  destruct (N.ltb_spec MAXD (1 + (MAXD - 1))); [reflexivity|].
+  destruct (N.ltb_spec MAXD (2 + (MAXD - 1))); [reflexivity|lia].
+Qed.
+
+(* Everything before the index processing.  The level array is never accessed
+   out of bounds EXCEPT by the memmove of the implicit NUMA insertion, exactly
+   for the class [memmove_class] (126 levels below Machine, no NUMA); the string
+   is never read out of bounds; the only other fault is the type-literal overrun
+   on a byte 0xE0. *)
+Theorem upto_insert_safe v s : nul_terminated s ->
+  match upto_insert v s with
+  | Ret (lv, count) => lenl lv = MAXD /\ 1 <= count <= MAXD
+  | Rej => True
+  | Fault f => (f = FLit /\ tm_ok v s = false) \/ (f = FLevel /\ fix_memmove v = false /\ memmove_class v s)
+  end.
+Proof.
+  intros Hn. pose proof (front_safe v s Hn) as Hf. unfold upto_insert.
+  destruct (front v s) as [[st d0]| |f] eqn:Ef; cbn [obind fst]; [|exact I|left; exact Hf].
+  pose proof (middle_spec true st Hf) as Hm. unfold spec0 in Hm.
+  destruct (middle st) as [[[[lv c] tn] tg]| |f] eqn:Em; cbn [obind]; [|exact I|destruct Hm; discriminate].
+  destruct Hm as [HL ->]. destruct Hf as [_ [H1 H2]].
+  destruct (needs_numa tn (st_nnr st)) eqn:En; [|split; [exact HL|lia]].
+  destruct (fix_memmove v) eqn:Efix.
+  - pose proof (numa_insert_spec true v lv (st_count st) HL H1 H2 (or_introl Efix)) as Hi. unfold spec0 in Hi.
+    destruct (numa_insert v lv (st_count st)) as [[lv' c']| |f]; [|exact I|destruct Hi; discriminate].
+    cbn [fst snd] in Hi. destruct Hi as [? ->]. split; [assumption|lia].
+  - destruct (N.eq_dec (st_count st) (MAXD - 1)) as [Ec|Ec].
+    + assert (Hcls : memmove_class v s).
+      { exists st, d0, lv, (st_count st), tn, tg. auto. }
+      destruct (numa_insert v lv (st_count st)) as [[lv' c']| |f] eqn:Ei.
+      * exfalso. unfold numa_insert, lv_memmove in Ei. rewrite Efix, HL in Ei.
+        pose proof MAXD_ge2. destruct (N.ltb_spec MAXD (1 + st_count st)); [discriminate|].
+        destruct (N.ltb_spec MAXD (2 + st_count st)); [discriminate|lia].
+      * exact I.
+      * right. unfold numa_insert, lv_memmove in Ei. rewrite Efix, HL in Ei.
+        destruct ((MAXD <? 1 + st_count st) || (MAXD <? 2 + st_count st)) eqn:Eb; cbn [obind] in Ei; [injection Ei as <-; auto|].
+        exfalso. pose proof MAXD_ge2. lia.
+    + pose proof (numa_insert_spec true v lv (st_count st) HL H1 H2 (or_intror Ec)) as Hi. unfold spec0 in Hi.
+      destruct (numa_insert v lv (st_count st)) as [[lv' c']| |f]; [|exact I|destruct Hi; discriminate].
+      cbn [fst snd] in Hi. destruct Hi as [? ->]. split; [assumption|lia].
+Qed.
+
+(* ... and conversely every description of that class does overflow on the current code *)
+Theorem memmove_class_overflows v s : fix_memmove v = false -> nul_terminated s -> memmove_class v s -> upto_insert v s = Fault FLevel.
+Proof.
+  intros Hv Hn [st [d0 [lv [c [tn [tg [E1 [E2 [E3 E4]]]]]]]]].
+  pose proof (front_safe v s Hn) as Hf. rewrite E1 in Hf.
+  pose proof (middle_spec true st Hf) as Hm. rewrite E2 in Hm. unfold spec0 in Hm. destruct Hm as [HL _].
+  unfold upto_insert. rewrite E1. cbn [obind fst]. rewrite E2. cbn [obind]. rewrite E3.
+  now apply numa_insert_overflow.
+Qed.
+Lemma upto_insert_fault_parse v s f : upto_insert v s = Fault f -> parse v s = Fault f.
+Proof.
+  rewrite parse_decomp. unfold upto_insert.
+  destruct (front v s) as [fr| |]; cbn [obind]; try congruence.
+  destruct (middle (fst fr)) as [[[[lv c] tn] tg]| |]; cbn [obind]; try congruence.
+  destruct (if needs_numa tn (st_nnr (fst fr)) then numa_insert v lv c else Ret (lv, c)); cbn [obind]; congruence.
+Qed.
